@@ -10,11 +10,11 @@ CONSTANTS
   ChemLayout = "rows_are_layers"
   UnitAt = "return"
   ULoop = 1
-  EvalEffect = "readonly"
+  EvalEffect = "inplace_mid"
   RADS = {8}
   GMS = {64,128}
   Slicing = "layer"
-  Export = TRUE
+  Export = FALSE
 INVARIANT LevelsStrictlyDecreasing
 INVARIANT LayerIsGeometricMean
 INVARIANT ArrayInputOrientation
